@@ -67,6 +67,19 @@ pub fn check(tape: &[u32]) -> CheckResult {
         let oy = t.range(-(mh as i64), (s.height as i64 / th as i64) + 1) * th as i64;
         s.frames[0].cels.push(Cel { layer: li as u16, x: ox as i16, y: oy as i16, opacity: t.u8_biased(), content: CelContent::Tilemap { w: mw, h: mh, bits: 32, masks: [0x1fffffff, 0x20000000, 0x40000000, 0x80000000], tiles }, user_data: None });
     }
+    // extreme canvas on one axis (tilemap size arithmetic near the u16 limit); the other axis stays tiny
+    // so that rendering remains cheap
+    match t.below(10) {
+        0 => {
+            s.width = t.pick(&[65535u16, 65534, 40000, 32769, 65535u16.saturating_sub(s.tilesets.first().map_or(0, |x| x.tw)).saturating_add(1)]);
+            s.height = 1 + t.below(3) as u16;
+        }
+        1 => {
+            s.height = t.pick(&[65535u16, 65534, 40000, 32769]);
+            s.width = 1 + t.below(3) as u16;
+        }
+        _ => {}
+    }
     let plan = build_plan(&mut t);
     let enc = encode(&s, &plan);
     let detail = |w: serde_json::Value| json!({"model": super::c01::summarize(&s), "input_hex": if enc.bytes.len() < 8000 { hex(&enc.bytes) } else { String::new() }, "where": w});
@@ -210,6 +223,9 @@ pub fn check(tape: &[u32]) -> CheckResult {
             }
             if tw != th {
                 labels.push("non-square-tile".into());
+            }
+            if s.width > 32768 || s.height > 32768 {
+                labels.push("canvas>32768".into());
             }
             nontrivial |= off_canvas || smaller || nodiv;
         }
